@@ -6,9 +6,32 @@ from harness import drive_ident, gen_graph, gen_proc, gen_cc, gen_cons, tlc
 from harness.runner import pmap, CACHE
 
 
+def multi_start_graph():
+    """Three start nodes (the start set is a set: its iteration order depends on the interpreter's hash seed)."""
+    from harness.gd import empty
+    g = empty(10)
+    g['start'] = [1, 2, 3]
+    g['der'] = [[1, 4], [2, 5], [3, 6], [4, 7], [8, 10]]
+    g['ch'] = [{'origin': 5, 'opts': [8, 9]}]
+    g['feat'] = ['multi_start']
+    return g
+
+
+def preconstrained_graph():
+    """Four two-option choices on permanent nodes, the first two already linked: the editor's add_constraint then
+    constrains the other two on ONE side (a copy must not share its constraint list with the original)."""
+    from harness.gd import empty
+    g = empty(13)
+    g['der'] = [[1, 2], [1, 3], [1, 4], [1, 5]]
+    g['ch'] = [{'origin': 2, 'opts': [6, 7]}, {'origin': 3, 'opts': [8, 9]}, {'origin': 4, 'opts': [10, 11]}, {'origin': 5, 'opts': [12, 13]}]
+    g['cons'] = [{'type': 'linked', 'm': [1, 2], 'dv': []}]
+    g['feat'] = ['preconstrained']
+    return g
+
+
 def corpus(ctx):
     rng = ctx.rng('ident')
-    gs = [gen_graph.theory_example(), gen_cc.theory_conn_example()]
+    gs = [gen_graph.theory_example(), gen_cc.theory_conn_example(), multi_start_graph(), preconstrained_graph()]
     n = 10 if ctx.quick else 80
     for i in range(n):
         r = rng.random()
